@@ -269,6 +269,10 @@ def strategy_e2e(draw):
     sp["options"]["store_history"] = True
     sp["options"].pop("history_size", None)
     sp["options"].pop("filter_size", None)
+    if draw(st.integers(0, 3)) == 0:
+        # a short history must not change which point is returned (the filter is still unbounded); the
+        # reference selection then ranges over the full history of the twin run without history_size
+        sp["options"]["history_size"] = draw(st.sampled_from([1, 2, 3]))
     return enc(sp)
 
 
@@ -289,6 +293,24 @@ def run_case(spec):
     tol = float(b.options.get("feasibility_tol", math.sqrt(S.EPS)))
     pairs = [(float(f), float(c)) for f, c in zip(r.fun_history, r.maxcv_history)]
     fun, maxcv = float(r.fun), float(r.maxcv)
+    sp = dec(spec)
+    if "history_size" in sp["options"]:
+        out.label("short-history")
+        sp2 = dict(sp, options={k: v for k, v in sp["options"].items() if k != "history_size"})
+        b2, t2 = e2e.run(enc(sp2))
+        r2 = t2.result
+        if t2.exc is not None or not hasattr(r2, "fun_history"):
+            out.label("twin-crash")
+            return out
+        if not (same(fun, float(r2.fun)) and same(maxcv, float(r2.maxcv)) and int(r.nfev) == int(r2.nfev)
+                and int(r.status) == int(r2.status) and e2e.same(np.asarray(r.x, float), np.asarray(r2.x, float))):
+            out.fail("C03.e2e.histsize", "with history_size=%r the run returns (fun=%r, maxcv=%r, nfev=%d, status=%d), "
+                     "without it (fun=%r, maxcv=%r, nfev=%d, status=%d): the length of the stored history changed "
+                     "which point is returned although the filter is unbounded in both runs"
+                     % (sp["options"]["history_size"], fun, maxcv, int(r.nfev), int(r.status), float(r2.fun),
+                        float(r2.maxcv), int(r2.nfev), int(r2.status)))
+            return out
+        pairs = [(float(f), float(c)) for f, c in zip(r2.fun_history, r2.maxcv_history)]
     pen = float(t.final_penalty)
     out.label("status%d" % r.status)
     if not any(same(fun, f) and same(maxcv, c) for f, c in pairs):
